@@ -91,13 +91,13 @@ fn main() {
     let code = match which.to_uppercase().as_str() {
         "SELFTEST" => selftest::run(&ctx),
         "C01" => fsmon::run::run_model_check(&ctx, "C01", 1500, 60_000),
-        "C02" => fsmon::run::run_model_check(&ctx, "C02", 1200, 40_000),
+        "C02" => fsmon::run::run_model_check(&ctx, "C02", 1200, 24_000),
         "C03" => fsmon::run::run_model_check(&ctx, "C03", 1500, 50_000),
         "C04" => fsmon::run::run_model_check(&ctx, "C04", 1500, 50_000),
-        "C05" => fsmon::run::run_model_check(&ctx, "C05", 1500, 50_000),
+        "C05" => fsmon::run::run_model_check(&ctx, "C05", 1500, 36_000),
         "C07" => fsmon::run::run_model_check(&ctx, "C07", 1500, 50_000),
         "C08" => fsmon::run::run_model_check(&ctx, "C08", 1500, 50_000),
-        "C16" => fsmon::run::run_model_check(&ctx, "C16", 1500, 50_000),
+        "C16" => fsmon::run::run_model_check(&ctx, "C16", 1500, 32_000),
         "C09" => fsmon::crash::run(&ctx, "C09"),
         "C10" => fsmon::crash::run(&ctx, "C10"),
         "C11" => fsmon::fault::run(&ctx),
